@@ -200,8 +200,7 @@ func (c *FnCtx) evalMulti(st *State, e ast.Expr, n int) []Term {
 			d.declFun("dyntype", "V", "Int")
 			var okS string
 			if _, isIface := to.Underlying().(*types.Interface); isIface {
-				okS = c.fresh(st, "implements", types.Typ[types.Bool]).S
-				okS = sAnd(okS, sNot(sEq(v.S, "nilV")))
+				okS = sAnd(c.implementsTerm(v, to), sNot(sEq(v.S, "nilV")))
 			} else {
 				okS = sAnd(sNot(sEq(v.S, "nilV")), sEq(sApp("dyntype", v.S), fmt.Sprint(d.typeTag(to))))
 			}
@@ -1195,8 +1194,7 @@ func (c *FnCtx) execTypeSwitch(st *State, x *ast.TypeSwitchStmt) []Outcome {
 			}
 			t := c.typeOf(te)
 			if _, isIface := t.Underlying().(*types.Interface); isIface {
-				f := c.fresh(cst, "implements", types.Typ[types.Bool])
-				conds = append(conds, sAnd(f.S, sNot(sEq(v.S, "nilV"))))
+				conds = append(conds, sAnd(c.implementsTerm(v, t), sNot(sEq(v.S, "nilV"))))
 			} else {
 				conds = append(conds, sAnd(sNot(sEq(v.S, "nilV")), sEq(sApp("dyntype", v.S), fmt.Sprint(d.typeTag(t)))))
 			}
